@@ -16,25 +16,25 @@ git checkout -q -- . ; git clean -fdq -e target
 run_demo() {  # prints PASS or FAIL
     if [ -f "$SRC/demo.sh" ]; then
         cargo build --offline -q 2>/dev/null
-        if bash "$SRC/demo.sh" "$WT/target/debug/ruschm" >/tmp/seed-demo.out 2>&1; then echo PASS; else echo FAIL; fi
+        if bash "$SRC/demo.sh" "$WT/target/debug/ruschm" >/tmp/seed-demo-$SID.out 2>&1; then echo PASS; else echo FAIL; fi
     elif [ -f "$SRC/demo_test.rs" ]; then
         cp "$SRC/demo_test.rs" tests/zz_seed_demo.rs
-        if cargo test --offline -q --test zz_seed_demo >/tmp/seed-demo.out 2>&1; then echo PASS; else echo FAIL; fi
+        if cargo test --offline -q --test zz_seed_demo >/tmp/seed-demo-$SID.out 2>&1; then echo PASS; else echo FAIL; fi
         rm -f tests/zz_seed_demo.rs
     elif [ -f "$SRC/demo.scm" ]; then
         cargo build --offline -q 2>/dev/null
         d=$(mktemp -d); cp -r "$SRC"/. "$d"/
         ( cd "$d" && "$WT/target/debug/ruschm" demo.scm >out.txt 2>err.txt; echo "status=$?" >>out.txt )
         if [ -f "$SRC/expected.txt" ] && diff -q <(grep -v '^status=' "$d/out.txt") "$SRC/expected.txt" >/dev/null 2>&1; then echo PASS; else echo FAIL; fi
-        cp "$d/out.txt" /tmp/seed-demo.out; rm -rf "$d"
+        cp "$d/out.txt" /tmp/seed-demo-$SID.out; rm -rf "$d"
     else
         echo NODEMO
     fi
 }
 CLEAN_DEMO=$(run_demo)
 git apply "$SRC/patch.diff" || { echo "patch does not apply"; exit 2; }
-if cargo test --workspace --no-fail-fast --offline >/tmp/seed-test.out 2>&1; then TESTS=green; else TESTS=red; fi
-NPASS=$(grep -E "^test result" /tmp/seed-test.out | awk '{s+=$4} END {print s}')
+if cargo test --workspace --no-fail-fast --offline >/tmp/seed-test-$SID.out 2>&1; then TESTS=green; else TESTS=red; fi
+NPASS=$(grep -aE "^test result" /tmp/seed-test-$SID.out | awk '{s+=$4} END {print s}')
 SEEDED_DEMO=$(run_demo)
 git checkout -q -- . ; git clean -fdq -e target
 echo "[$SID] tests with change: $TESTS ($NPASS passed); demo: clean=$CLEAN_DEMO seeded=$SEEDED_DEMO"
